@@ -41,7 +41,7 @@ pub fn defs() -> Vec<PropDef> {
         bounds: |t| {
             json!({
                 "u8_u16_fields": "all values",
-                "u32_fields": if t.thorough() { "all 2^32 values for each of the nine 32-bit kinds" } else { "boundary alphabet (walking one/zero, single non-zero octet, extremes): 1090 values" },
+                "u32_fields": if t.thorough() { "all 2^32 values for each of the nine 32-bit kinds in the release profile; every 16th 65536-word block plus the first 256 blocks in the debug-assertions profile" } else { "boundary alphabet (walking one/zero, single non-zero octet, extremes): 1090 values" },
                 "u64_fields": "boundary alphabet: ~2170 values",
                 "variable_payload_lengths": vgen::VAR_LENGTHS, "oversize_lengths": vgen::OVERSIZE_LENGTHS,
                 "hidden": "attribute type all 65536 x value lengths {0,1,15,16,17,32,1008,1017}",
@@ -493,7 +493,7 @@ fn ctl(tid: u16, sid: u16, ns: u16, nr: u16, length: u16, avps: Vec<SAvp>) -> SM
 fn run_values(ctx: &mut Ctx) {
     let which = which_of(ctx);
     let tier = ctx.tier;
-    ctx.nontrivial_mod = if tier.thorough() { 1024 } else { 1 };
+    ctx.nontrivial_mod = 1;
     let domain_only = which == Which::C03;
     if which != Which::C04 {
         // single AVPs
@@ -520,24 +520,31 @@ fn run_values(ctx: &mut Ctx) {
             ctx.case(&desc, |ctx| check_avp(ctx, &a));
         }
         if tier.thorough() {
-            // all 2^32 words of each 32-bit kind
+            // all 2^32 words of each 32-bit kind, one case per 65 536-word block (the debug-
+            // assertions profile takes every 16th block plus the first 256)
+            let chk = cfg!(debug_assertions);
             for attr in [3u16, 4, 15, 16, 17, 18, 19, 24, 38] {
                 let bits = matches!(attr, 3 | 4 | 18 | 19);
-                let chunk = 1u64 << 16;
-                let mut base = 0u64;
-                while base < (1u64 << 32) {
-                    if ctx.mine() {
-                        ctx.states += 1;
-                        ctx.transitions += 1;
-                        for w in base..base + chunk {
-                            let a = SAvp::Plain { attr, val: if bits { SVal::Bits(w as u32) } else { SVal::U32(w as u32) } };
-                            ctx.states += 1;
-                            ctx.transitions += 1;
-                            let desc = || avp_json(&a);
-                            ctx.case(&desc, |ctx| check_avp_fast(ctx, &a));
-                        }
+                for block in 0..(1u32 << 16) {
+                    if !ctx.mine() {
+                        continue;
                     }
-                    base += chunk;
+                    if chk && block >= 256 && block % 16 != 0 {
+                        continue;
+                    }
+                    ctx.states += 1 + (1 << 16);
+                    ctx.transitions += 1 + (1 << 16);
+                    let base = block << 16;
+                    let desc = || json!({"kind":"block32","attr":attr,"base":base});
+                    ctx.case(&desc, |ctx| {
+                        for lo in 0..(1u32 << 16) {
+                            let w = base | lo;
+                            let a = SAvp::Plain { attr, val: if bits { SVal::Bits(w) } else { SVal::U32(w) } };
+                            check_avp_fast(ctx, &a);
+                        }
+                        ctx.executions += (1 << 16) - 1;
+                    });
+                    ctx.note_nontrivial(fnv(&base.to_be_bytes(), attr as u64));
                 }
             }
         }
@@ -733,23 +740,28 @@ fn run_values(ctx: &mut Ctx) {
     }
 }
 
-/// 2^32 sweeps: the same checks without per-case bookkeeping that allocates
+/// 2^32 sweeps: the same checks without per-case bookkeeping
 fn check_avp_fast(ctx: &mut Ctx, a: &SAvp) {
-    let which = which_of(ctx);
-    let Some((c, enc)) = encode_avp_crate(a) else { return };
-    let mut sp = Vec::with_capacity(10);
-    let _ = spec::encode_avp(a, &mut sp);
-    let Ok(b) = enc else {
-        ctx.violation(format!("{} sweep32 encode-panics attr{}", ctx.prop.clone(), a.attr()), "panic".into(), 0, || avp_json(a));
-        return;
+    let which = which_of_fast(&ctx.prop);
+    let Some(c) = bridge::avp_to_crate(a) else { return };
+    let mut w = VecWriter { data: Vec::with_capacity(10) };
+    c.write(&mut w);
+    let b = w.data;
+    let (attr, word) = match a {
+        SAvp::Plain { attr, val: SVal::Bits(x) } | SAvp::Plain { attr, val: SVal::U32(x) } => (*attr, *x),
+        _ => return,
     };
+    // specified octets of a 32-bit AVP: M bit, length 10, vendor 0, attribute, big-endian word
+    let wb = word.to_be_bytes();
+    let sp: [u8; 10] = [0x01, 0x0a, 0, 0, (attr >> 8) as u8, attr as u8, wb[0], wb[1], wb[2], wb[3]];
     let bad = match which {
-        Which::C06 => b != sp,
+        Which::C06 => b[..] != sp[..],
         Which::C07 => walker_avp_len(&b) != b.len() || 6 + c.get_length() != b.len(),
-        Which::C03 => match dec_avps(&b) {
-            Some(v) => v.len() != 1 || v[0].as_ref().ok() != Some(a),
-            None => false,
-        },
+        Which::C03 => {
+            let mut r = rl2tp::common::SliceReader::from(&b[..]);
+            let v = rl2tp::avp::AVP::try_read_greedy(&mut r);
+            v.len() != 1 || v[0].as_ref().ok() != Some(&c)
+        }
         Which::C04 => false,
     };
     if bad {
@@ -759,6 +771,15 @@ fn check_avp_fast(ctx: &mut Ctx, a: &SAvp) {
             0,
             || avp_json(a),
         );
+    }
+}
+
+fn which_of_fast(p: &str) -> Which {
+    match p {
+        "C03" => Which::C03,
+        "C04" => Which::C04,
+        "C06" => Which::C06,
+        _ => Which::C07,
     }
 }
 
@@ -782,6 +803,19 @@ fn replay_values(ctx: &mut Ctx, v: &Value) {
                 SMessage::Control { .. } => ctx.case(&desc, |ctx| check_control(ctx, &m, &desc)),
                 SMessage::Data { .. } => ctx.case(&desc, |ctx| check_data(ctx, &m)),
             };
+        }
+        Some("block32") => {
+            let attr = v["attr"].as_u64().unwrap_or(3) as u16;
+            let base = v["base"].as_u64().unwrap_or(0) as u32;
+            let bits = matches!(attr, 3 | 4 | 18 | 19);
+            let desc = || v.clone();
+            ctx.case(&desc, |ctx| {
+                for lo in 0..(1u32 << 16) {
+                    let w = base | lo;
+                    let a = SAvp::Plain { attr, val: if bits { SVal::Bits(w) } else { SVal::U32(w) } };
+                    check_avp_fast(ctx, &a);
+                }
+            });
         }
         Some("bigctl") => {
             let n_max = v["n_max"].as_u64().unwrap_or(64) as usize;
